@@ -349,7 +349,13 @@ def run_desc(desc, d, k):
     why = []
     gap = min_indel_gap(gene, copies)
     close = gap is not None and gap <= CLOSE_INDEL_GAP
-    tag = ":close_indels" if close else ""
+    def left_shiftable(m):
+        if not m[1].startswith("del") or "ins" in m[1]:
+            return False
+        n = len(m[1]) - 3
+        return gene[m[0] - 1] == gene[m[0] + n - 1]
+    repeat_del = any(left_shiftable(m) for mj, mi in copies for m in sim.copy_variants(gene, mj, mi) if gene.has_coverage(mj, m[0]))
+    tag = ":close_indels" if close else ":deletion_in_repeat" if repeat_del else ""
     if err is not None:
         why.append(("c01:error", f"genotype() fails on an error-free planted sample: {err}"))
     elif planted_cn_optimal:
